@@ -1054,6 +1054,20 @@ def power(a, b):
     return spec_pow(a, b)
 
 
+def pow_in_range(a, b):
+    """A general real power is the one operation in this code base whose float64 result leaves the
+    finite range for moderate operands (x**x is inf from x ~ 143.3): the code under contract must keep
+    y*ln(x) below ln(DBL_MAX) ~ 709.78 (the other disjuncts are the linear special cases)."""
+    a, b = _numeric(a), _numeric(b)
+    if _is_const(b) and isinstance(b, int) and -4 <= b <= 8:
+        return True
+    if _is_const(a) and _is_const(b):
+        return True
+    x, y = to_z3(a, "real"), to_z3(b, "real")
+    lg = uf("log", 1)
+    return SymBool(z3.Or(x <= 0, z3.And(x <= 1, y >= 0), z3.And(x >= 1, y <= 0), y * lg(x) <= 709))
+
+
 def spec_pow(a, b):
     """General real power as an uninterpreted function with on-demand facts."""
     c = ctx()
@@ -1067,7 +1081,11 @@ def spec_pow(a, b):
     c.assume(z3.Implies(z3.And(x == 0, y == 0), r == 1))
     c.assume(z3.Implies(z3.And(x == 0, y > 0), r == 0))
     c.assume(z3.Implies(y == 1, r == x))
-    c.used_axioms.add("pow: x>0 => pow(x,y)>0 and log(pow(x,y)) = y*log(x); pow(0,0)=1; pow(0,y>0)=0; pow(x,1)=x")
+    c.assume(z3.Implies(z3.And(x > 0, x <= 1), lg(x) <= 0))
+    c.assume(z3.Implies(x >= 1, z3.And(lg(x) >= 0, lg(x) <= x - 1)))
+    c.used_axioms.add("pow: x>0 => pow(x,y)>0 and log(pow(x,y)) = y*log(x); pow(0,0)=1; pow(0,y>0)=0; pow(x,1)=x; log(x)<=0 on (0,1], 0<=log(x)<=x-1 on [1,inf)")
+    if not c.in_spec and not c.stub_mode:
+        c.oblige("pow.result_stays_in_the_float64_range[%s]" % c.fresh_name("pw"), pow_in_range(a, b), kind="domain")
     return SymNum(r, "real")
 
 
